@@ -3,12 +3,12 @@ SPECIFICATION MCFairSpec
 CONSTANTS
   MaxLocators = 4
   MaxHeaders = 3
-  Lens = {0, 1, 2, 4}
+  Lens = {0, 1, 2, 3, 5}
   Diffs = {1, 2}
-  MaxIds = 8
+  MaxIds = 9
   MaxReorgs = 1
   MaxResets = 1
-  MaxByz = 1
+  MaxByz = 0
   Variant = "code"
   ProbeHeights = {}
   FullChainUpTo = 0
